@@ -12,9 +12,10 @@
 
   Domain of the model: variables are `str`.  (`BDDNode(5, low, high)` builds a node in the implementation — nothing
   checks `var` — such a call is outside the model: `BDDNode.new` answers `none` for it.)  `repr` of a name assumes
-  that code points ≥ 0x100 are printable.  The only process-global state besides the unique table is the value held
-  by each terminal node (`TermVals`: `BDDNode(1.0)` as the FIRST request for terminal 1 leaves a float in it, and
-  `^` then raises `TypeError`); everywhere else the terminals are assumed to hold `int` / `bool` values.
+  that code points ≥ 0x100 are printable.  A terminal node always holds a `bool` (`BDDTerminalNode.__new__` stores
+  `bool(value)`, see `NBDD.value`): `BDDNode(1.0)`, `BDDNode(1)` and `BDDNode(True)` are the same node holding `True`,
+  so the operators of `&`, `|`, `^` never raise on the values of two terminals and there is no process-global state
+  besides the unique table.
   Sharing makes node identity (`is`) equality of trees (C16), which is how `low is high`, `self.root is A.root` and
   membership in the `checked` set are modelled.
 -/
@@ -41,13 +42,14 @@ def makeLoop (seen : List String) : List String → Except Err (List String)
 /-- `ListOrdering(l)` (also `Ordering(l)` for a list `l`) -/
 def make (l : List String) : Except Err (List String) := makeLoop [] l
 
-/-- `cmp`: `self.ordering[x] - self.ordering[y]`; a missing key is a `KeyError` (`x` is looked up first) -/
+/-- `cmp`: `RuntimeError` when `x` or `y` is not a key of the ordering (`x` is looked at first, the class is the
+    same), otherwise `self.ordering[x] - self.ordering[y]` -/
 def cmp (O : List String) (x y : String) : Except Err Int :=
   match position O x with
-  | none => .error .keyError
+  | none => .error .runtimeError
   | some i =>
     match position O y with
-    | none => .error .keyError
+    | none => .error .runtimeError
     | some j => .ok ((i : Int) - (j : Int))
 
 /-- `in_order`: `cmp(x, y) < 0` -/
@@ -151,13 +153,14 @@ def printStr (t : NBDD) : String :=
   PMC.BDD.printStr (fun i => (vars t).getD i "?") (toPos (vars t) t)
 
 /-- the test made on one child before the recursion: `isinstance(son, BDDNonTerminalNode) and not
-    O.in_order(self.var, son.var)` (a `KeyError` when `son.var` is not a key of the ordering) -/
+    O.in_order(self.var, son.var)` (a `RuntimeError`, from `cmp`, when `son.var` is not in the ordering) -/
 def edgeOk (O : List String) (v : String) : NBDD → Except Err Bool
   | leaf _ => .ok true
   | node w _ _ => Ordering.inOrder O v w
 
-/-- `respect_ordering(O)`: `self.var not in O` first (`RuntimeError`), then the two edges (low, high), then the
-    recursion into `high`, then into `low` (`and` short-circuits) -/
+/-- `respect_ordering(O)`: `self.var not in O` first (`RuntimeError`), then the two edges (low, high: `False` for an
+    edge that does not go forward, `RuntimeError` for a child variable outside `O`), then the recursion into `high`,
+    then into `low` (`and` short-circuits) -/
 def respect (O : List String) : NBDD → Except Err Bool
   | leaf _ => .ok true
   | node v lo hi =>
@@ -252,11 +255,19 @@ def asNode : PyVal → Option NBDD
 
 end PyVal
 
-/-- `BDDTerminalNode(value)`: `value in set([0, 1, False, True])` (an unhashable value is a `TypeError` too) -/
+/-- `BDDTerminalNode(value)`: `value in set([0, 1, False, True])` (an unhashable value is a `TypeError` too); the
+    accepted value is normalised with `bool(value)` before the lookup in `Tnodes`, so `1`, `True` and `1.0` denote the
+    same node, whichever is asked for first -/
 def terminal (v : PyVal) : Except Err NBDD :=
   match v.asBit with
   | some b => .ok (.leaf b)
   | Option.none => .error .typeError
+
+/-- `node.value`, the attribute of a terminal node (`none`: a non-terminal node has no such attribute): always a
+    `bool`, whatever value the node was requested with -/
+def NBDD.value : NBDD → Option PyVal
+  | .leaf b => some (.bool b)
+  | .node _ _ _ => Option.none
 
 /-- `BDDNonTerminalNode(var, low, high)`: both children must be `BDDNode`s; `low is high` returns `low`; otherwise
     the isomorphic node if there is one (`find_isomorph`), else a new node — at tree level, the tree itself -/
@@ -430,63 +441,33 @@ def ordInOrder : Option (List String) → String → String → Except Err Bool
   | some O, x, y => Ordering.inOrder O x y
   | Option.none, _, _ => .error .attributeError
 
-/-- What the two terminal nodes hold.  `BDDTerminalNode.Tnodes` is keyed by the value, and `0 == False == 0.0`
-    (same hash): whichever value a terminal is *first* created with stays in the node for the rest of the process.
-    `none`: not created yet; `some f`: created, `f` = its value is a `float` (`BDDNode(1.0)`). -/
-structure TermVals where
-  t0 : Option Bool
-  t1 : Option Bool
-  deriving DecidableEq, Repr
-
-namespace TermVals
-
-/-- the usual state: both terminals exist and hold `int` / `bool` values -/
-def clean : TermVals := ⟨some false, some false⟩
-/-- a fresh interpreter -/
-def fresh : TermVals := ⟨Option.none, Option.none⟩
-
-def isFloat (T : TermVals) (b : Bool) : Bool := (if b then T.t1 else T.t0).getD false
-
-/-- terminal `b` is asked for with a value that is (`f = true`) or is not a float -/
-def create (T : TermVals) (b : Bool) (f : Bool) : TermVals :=
-  if b then (match T.t1 with | Option.none => { T with t1 := some f } | some _ => T)
-  else (match T.t0 with | Option.none => { T with t0 := some f } | some _ => T)
-
-/-- `operator(A.value, B.value)` raises: `lambda a, b: a ^ b` is a `TypeError` on a `float` -/
-def xorBad (T : TermVals) (a b : Bool) : Bool := T.isFloat a || T.isFloat b
-
-end TermVals
-
-def PyVal.isFloat : PyVal → Bool
-  | .float _ _ => true
-  | _ => false
-
-/-- `compute` of BDD.py on named diagrams (fuel = size sum; the cache `r_cache` is transparent).  `bad a b`: the
-    operator raises `TypeError` on the values held by the terminals `a`, `b` (see `TermVals.xorBad`; never for `and`,
-    `or`).  The last branch is `raise RuntimeError('… %s %s' % A, B)`, whose message fails to format: a `TypeError`. -/
-def NBDD.apply (op bad : Bool → Bool → Bool) (O : Option (List String)) : Nat → NBDD → NBDD → Except Err NBDD
+/-- `compute` of BDD.py on named diagrams (fuel = size sum; the cache `r_cache` is transparent).  On two terminals
+    `operator(A.value, B.value)` is applied to two `bool`s (`NBDD.value`), on which `and`, `or`, `^` never raise and
+    answer a `bool`.  A comparison with a variable outside the ordering is a `RuntimeError` (`Ordering.cmp`).  The last
+    branch is `raise RuntimeError('… %s %s' % A, B)`, whose message fails to format: a `TypeError`. -/
+def NBDD.apply (op : Bool → Bool → Bool) (O : Option (List String)) : Nat → NBDD → NBDD → Except Err NBDD
   | 0, a, _ => .ok a
-  | _+1, .leaf a, .leaf b => if bad a b then .error .typeError else .ok (.leaf (op a b))
+  | _+1, .leaf a, .leaf b => .ok (.leaf (op a b))
   | n+1, .leaf a, .node v lo hi =>
-    match NBDD.apply op bad O n (.leaf a) lo with
+    match NBDD.apply op O n (.leaf a) lo with
     | .error x => .error x
     | .ok l =>
-      match NBDD.apply op bad O n (.leaf a) hi with
+      match NBDD.apply op O n (.leaf a) hi with
       | .error x => .error x
       | .ok h => .ok (NBDD.mk v l h)
   | n+1, .node v lo hi, .leaf b =>
-    match NBDD.apply op bad O n lo (.leaf b) with
+    match NBDD.apply op O n lo (.leaf b) with
     | .error x => .error x
     | .ok l =>
-      match NBDD.apply op bad O n hi (.leaf b) with
+      match NBDD.apply op O n hi (.leaf b) with
       | .error x => .error x
       | .ok h => .ok (NBDD.mk v l h)
   | n+1, .node v1 lo1 hi1, .node v2 lo2 hi2 =>
     let sons (v : String) (a0 b0 a1 b1 : NBDD) : Except Err NBDD :=
-      match NBDD.apply op bad O n a0 b0 with
+      match NBDD.apply op O n a0 b0 with
       | .error x => .error x
       | .ok l =>
-        match NBDD.apply op bad O n a1 b1 with
+        match NBDD.apply op O n a1 b1 with
         | .error x => .error x
         | .ok h => .ok (NBDD.mk v l h)
     match ordInOrder O v1 v2 with
@@ -502,11 +483,11 @@ def NBDD.apply (op bad : Bool → Bool → Bool) (O : Option (List String)) : Na
 
 /-- `OBDD.apply(operator, B)` (`&`, `|`, `^`): `TypeError` unless `B` is an OBDD, `RuntimeError` when the orderings
     differ; the result is wrapped with `check_ordering=False` (with `ordering=None` that is the lambda branch again) -/
-def OBDDv.apply (op bad : Bool → Bool → Bool) (self : OBDDv) (B : PyVal) : Except Err OBDDv :=
+def OBDDv.apply (op : Bool → Bool → Bool) (self : OBDDv) (B : PyVal) : Except Err OBDDv :=
   match B with
   | .obdd b =>
     if !(OBDDv.ordEq self.ordering b.ordering) then .error .runtimeError else
-    match NBDD.apply op bad self.ordering (self.root.size + b.root.size) self.root b.root with
+    match NBDD.apply op self.ordering (self.root.size + b.root.size) self.root b.root with
     | .error x => .error x
     | .ok t =>
       match self.ordering with
